@@ -44,6 +44,7 @@ from common import Violation, parse_sexp
 
 TITLE = "derived factors are total unambiguous functions of their window"
 LEVEL = "proof"
+DOMAINS = ['Derive', 'Design']
 
 
 # --------------------------------------------------------------------------- program side
@@ -942,6 +943,16 @@ def hand_cases():
     out.append(({"factors": [base, tr, d], "constraints": [{"id": 0, "kind": "MinimumTrials", "trials": 4}],
                  "blocks": [{"id": 0, "kind": "CrossBlock", "design": [0, 1, 2], "crossing": [0], "constraints": [0], "rcc": True}],
                  "main": 0}, 2, {"hand": "implied-early-start-over-transition", "placement": "implied"}))
+    # open finding derive:wrong-level:act: a window that mixes a complex derived dependency with a basic factor;
+    # the SAT encoding reads the basic factor one trial too early
+    m = {"id": 2, "name": "d", "kind": "derived", "window": {"type": "within", "deps": [1, 0]},
+         "levels": [{"name": "x", "table": [[["same"], ["a"]], [["diff"], ["b"]]]},
+                    {"name": "y", "table": [[["same"], ["b"]], [["diff"], ["a"]]]}]}
+    out.append(({"factors": [base, tr, m],
+                 "constraints": [{"id": 0, "kind": "AtMostKInARow", "k": 6, "level": [2, "x"]},
+                                 {"id": 1, "kind": "MinimumTrials", "trials": 4}],
+                 "blocks": [{"id": 0, "kind": "CrossBlock", "design": [0, 1, 2], "crossing": [0], "constraints": [0, 1], "rcc": True}],
+                 "main": 0}, 2, {"hand": "within-over-transition-and-basic", "placement": "constrained"}))
     return out
 
 
